@@ -1278,7 +1278,7 @@ def covar_errors(params, data, errs, B, C=None):
             J = lmfit_jacobian(params, mask[0], mask[1], errs=errs)
             covar = np.transpose(J).dot(inv(C)).dot(J)
             onesigma = np.sqrt(np.diag(inv(covar)))
-        except (np.linalg.linalg.LinAlgError, ValueError) as _:
+        except (np.linalg.LinAlgError, ValueError) as _:
             C = None
 
     if C is None:
@@ -1286,7 +1286,7 @@ def covar_errors(params, data, errs, B, C=None):
             J = lmfit_jacobian(params, mask[0], mask[1], B=B, errs=errs)
             covar = np.transpose(J).dot(J)
             onesigma = np.sqrt(np.diag(inv(covar)))
-        except (np.linalg.linalg.LinAlgError, ValueError) as _:
+        except (np.linalg.LinAlgError, ValueError) as _:
             onesigma = [-2] * len(mask[0])
 
     for i in range(int(params['components'].value)):
